@@ -275,3 +275,43 @@ Definition before (a b : string) (l : list string) : bool :=
   | Some i, Some j => Nat.ltb i j
   | _, _ => false
   end.
+
+(* ---- the calls of a body with their arguments, in source order ---- *)
+Fixpoint ecalls_a (fuel : nat) (e : gexpr) : list (string * list gexpr) :=
+  match fuel with
+  | O => []
+  | S k =>
+    match e with
+    | GCall f args => (f, args) :: flat_map (ecalls_a k) args
+    | GBin _ a b => ecalls_a k a ++ ecalls_a k b
+    | GUn _ a => ecalls_a k a
+    | GSel a _ => ecalls_a k a
+    | _ => []
+    end
+  end.
+
+Fixpoint calls_a (fuel : nat) (ss : list gstmt) : list (string * list gexpr) :=
+  match fuel with
+  | O => []
+  | S k =>
+    match ss with
+    | [] => []
+    | s :: rest =>
+      (match s with
+       | SAssign lhs _ rhs => flat_map (ecalls_a k) rhs ++ flat_map (ecalls_a k) lhs
+       | SIncDec x _ => ecalls_a k x
+       | SIf init c thn els => calls_a k init ++ ecalls_a k c ++ calls_a k thn ++ calls_a k els
+       | SFor init c post body =>
+         calls_a k init ++ (match c with Some e => ecalls_a k e | None => [] end) ++ calls_a k body ++ calls_a k post
+       | SRange _ _ x body => ecalls_a k x ++ calls_a k body
+       | SReturn rs => flat_map (ecalls_a k) rs
+       | SExpr e => ecalls_a k e
+       | SDefer e => ecalls_a k e
+       | SGo e => ecalls_a k e
+       | SBlock b => calls_a k b
+       | SVar _ (Some e) => ecalls_a k e
+       | SSwitch init tag cases => calls_a k init ++ ecalls_a k tag ++ flat_map (fun cs => calls_a k (snd cs)) cases
+       | _ => []
+       end) ++ calls_a k rest
+    end
+  end.
